@@ -37,3 +37,68 @@ static uint64_t ref_ipv6_serialize(const uint16_t a[8], uint8_t* out) {
   return k;
 }
 #endif
+
+/* ---- WHATWG URL Standard, IPv6 parser (https://url.spec.whatwg.org/#concept-ipv6-parser), transliterated.
+ * Input s[0,n) is the text between the brackets; n <= REF_V6_MAX.  Returns 1 and fills a[8], or 0 = failure.
+ * Every loop has a constant bound (the pointer is symbolic). */
+#ifndef REF_V6_MAX
+#define REF_V6_MAX 16
+#endif
+static int ref_v6_hex(uint8_t c) { return (c >= '0' && c <= '9') || ((c | 0x20) >= 'a' && (c | 0x20) <= 'f'); }
+static unsigned ref_v6_hexval(uint8_t c) { return c <= '9' ? c - '0' : (c | 0x20) - 'a' + 10; }
+#define V6C(p) ((p) < n ? s[(p) % REF_V6_MAX] : 0x100)   /* 0x100 = EOF code point */
+static int ref_ipv6_parse(const uint8_t* s, uint64_t n, uint16_t a[8]) {
+  for (unsigned i = 0; i < 8; i++) a[i] = 0;                               /* 1 */
+  unsigned piece = 0; int compress = -1; uint64_t p = 0;                    /* 2-4 */
+  if (V6C(p) == ':') {                                                      /* 5 */
+    if (V6C(p + 1) != ':') return 0;
+    p += 2; piece++; compress = (int)piece;
+  }
+  for (unsigned it = 0; it < REF_V6_MAX + 1; it++) {                        /* 6. while c is not EOF */
+    if (V6C(p) == 0x100) break;
+    if (piece == 8) return 0;                                               /* 6.1 */
+    if (V6C(p) == ':') {                                                    /* 6.2 */
+      if (compress != -1) return 0;
+      p++; piece++; compress = (int)piece; continue;
+    }
+    unsigned value = 0, length = 0;                                         /* 6.3-6.4 */
+    for (unsigned k = 0; k < 4; k++) if (length == k && V6C(p) != 0x100 && ref_v6_hex((uint8_t)V6C(p))) { value = value * 16 + ref_v6_hexval((uint8_t)V6C(p)); p++; length++; }
+    if (V6C(p) == '.') {                                                    /* 6.5 IPv4-in-IPv6 */
+      if (length == 0) return 0;
+      p -= length;
+      if (piece > 6) return 0;
+      unsigned seen = 0;
+      for (unsigned q = 0; q < 5; q++) {                                    /* while c is not EOF (at most 4 numbers + 1) */
+        if (V6C(p) == 0x100) break;
+        if (seen > 0) { if (V6C(p) == '.' && seen < 4) p++; else return 0; }
+        if (!(V6C(p) >= '0' && V6C(p) <= '9')) return 0;
+        int v4 = -1;
+        for (unsigned k = 0; k < 4; k++) if (V6C(p) >= '0' && V6C(p) <= '9') {
+          unsigned num = V6C(p) - '0';
+          if (v4 == -1) v4 = (int)num; else if (v4 == 0) return 0; else v4 = v4 * 10 + (int)num;
+          if (v4 > 255) return 0;
+          p++;
+        }
+        if (V6C(p) >= '0' && V6C(p) <= '9') return 0;                       /* a fifth digit would exceed 255 anyway */
+        a[piece] = (uint16_t)(a[piece] * 0x100 + (unsigned)v4);
+        seen++;
+        if (seen == 2 || seen == 4) piece++;
+      }
+      if (seen != 4) return 0;
+      break;
+    } else if (V6C(p) == ':') {                                             /* 6.6 */
+      p++;
+      if (V6C(p) == 0x100) return 0;
+    } else if (V6C(p) != 0x100) return 0;                                   /* 6.7 */
+    a[piece] = (uint16_t)value; piece++;                                    /* 6.8-6.9 */
+  }
+  if (V6C(p) != 0x100) return 0;                                            /* loop bound exhausted: cannot happen for n <= REF_V6_MAX */
+  if (compress != -1) {                                                     /* 7 */
+    unsigned swaps = piece - (unsigned)compress; piece = 7;
+    for (unsigned k = 0; k < 8; k++) if (piece != 0 && swaps > 0) {
+      uint16_t t = a[piece]; a[piece] = a[(unsigned)compress + swaps - 1]; a[(unsigned)compress + swaps - 1] = t;
+      piece--; swaps--;
+    }
+  } else if (piece != 8) return 0;                                          /* 8 */
+  return 1;
+}
